@@ -143,6 +143,16 @@ class ModelGen:
                 continue
             self.emit({"op": "set_ref", "space": path, "name": rn, "value": {"lit": rnd.randint(1, 9)},
                        "mode": "auto", "via": rnd.choice(["setattr", "set_ref"])})
+        if rnd.random() < 0.15:
+            # a space-level reference shadowing a model-level one of the same name
+            self.emit({"op": "set_ref", "space": path, "name": rnd.choice(MODEL_REFS),
+                       "value": {"lit": rnd.randint(60, 69)}, "via": "setattr"})
+        if sp.formula is not None and rnd.random() < 0.25:
+            # a reference of the base space named like one of its parameters (the argument wins in instances)
+            pn = sp.formula.params[-1][0]
+            if pn not in mem["cells"]:
+                self.emit({"op": "set_ref", "space": path, "name": pn, "value": {"lit": rnd.randint(70, 79)},
+                           "via": "setattr"})
         if not top:
             self.fill_cells(path, pool)
 
